@@ -287,6 +287,12 @@ def reference(hist):
             prog = b"/nonexistent-nstd-verif/args-child" if t[1] == "path" else b""
             err = hx(prog + b": No such file or directory\n") if m & 2 else "-"
             out.append(f"xf ok=1 pipes={m & 7} | joined=1 exit=1 eof=1 out=- err={err} after=0")
+        elif t[0] == "fdtable":
+            # only the parent holds its end (read end of stdout/stderr, write end of stdin) in the member that names it,
+            # only the child holds the other end, as descriptor 1 / 2 / 0
+            m = int(t[1])
+            out.append(f"ft ok=1 out={'P:r@out;C:w@1' if m & 1 else 'none'} err={'P:r@err;C:w@2' if m & 2 else 'none'} "
+                       f"in={'P:w@in;C:r@0' if m & 4 else 'none'} | killed=1 after=0")
         elif t[0] == "fds":
             # no descriptor is left behind: only the pipe ends the Process object currently holds are open
             out.append(f"fds | open={sum(1 for x in st[1:4] if x)}")
@@ -415,6 +421,7 @@ def proc_histories(rng, quick):
                      else f"p close {rng.randrange(8)}" if k < 0.85 else f"p read3 {rng.randrange(8)}" if k < 0.95 else f"p start {rng.randrange(256)}")
         hs.append(h)
     hs.append([f"killtest {m}" for m in range(4)])
+    hs.append([f"fdtable {m}" for m in range(8)])
     return [h + ["p new", "fds"] for h in hs]
 
 
@@ -524,7 +531,7 @@ def histories_for(ctx):
         f"({len(es)}){'' if quick else f' and <= 6 symbols over a, b, blank, quote, backslash ({len(es2)})'} + {len(rs)} random lines, 20 s watchdog; "
         f"run: {len(rl)} launches of the helper child through every start/open form x redirection mask x environment (empty=inherit, 1..3 variables) "
         f"with argv/environment echoed back; io: redirection masks 0..7 x payload sizes {SIZES} ({len(il)} runs, stdin payload written and "
-        f"stdout/stderr read to end-of-file, CRC-32 compared); exit: {len(xl)} exit codes through start(command)+join; Process object: every sequence of <= {3 if quick else 4} calls over {len(POPS)} calls (start, open with masks 0/1/7, join, kill, close, isRunning, read with stream selection, destructor) + random sequences ({len(ph)} histories; pid/descriptor bookkeeping, results, EINVAL; every history ends with a count of leaked descriptors), a child blocked on its stdin is killed (4 masks); an executable that cannot be started (missing file, empty and blank command line) x masks 0..7: launch succeeds, exit code EXIT_FAILURE, `<program>: No such file or directory` on the redirected stderr; environment: {len(eh)} random histories of setEnvironmentVariable/getEnvironmentVariable/getEnvironmentVariables mixed with launches that inherit the environment. "
+        f"stdout/stderr read to end-of-file, CRC-32 compared); exit: {len(xl)} exit codes through start(command)+join; Process object: every sequence of <= {3 if quick else 4} calls over {len(POPS)} calls (start, open with masks 0/1/7, join, kill, close, isRunning, read with stream selection, destructor) + random sequences ({len(ph)} histories; pid/descriptor bookkeeping, results, EINVAL; every history ends with a count of leaked descriptors), a child blocked on its stdin is killed (4 masks); the descriptor tables of parent and child after open() read through /proc and compared with the descriptor-table model (8 masks); an executable that cannot be started (missing file, empty and blank command line) x masks 0..7: launch succeeds, exit code EXIT_FAILURE, `<program>: No such file or directory` on the redirected stderr; environment: {len(eh)} random histories of setEnvironmentVariable/getEnvironmentVariable/getEnvironmentVariables mixed with launches that inherit the environment. "
         "distinct_nontrivial = distinct observation lines with >= 2 results / >= 2 words / a child run")
     ctx.cov["open_statements"] = [
         "run-time delivery (the child observes argv/environ as given, join returns its exit code, redirected bytes arrive intact up to "
